@@ -105,7 +105,7 @@ pub fn exec(verb: &str, items: &[Sexp], o: &mut Oracle) -> Option<String> {
                 Ok((m, rem)) => {
                     let mut badstr = vec![];
                     check_utf8(&s, &m, &mut badstr);
-                    if !badstr.is_empty() { o.fail("C10", format!("decoded message holds a string that is not UTF-8: {}", badstr[0])); }
+                    if !badstr.is_empty() { o.fail("NOTE-utf8", format!("decoded message holds a string that is not UTF-8: {}", badstr[0])); }
                     if verb == "pbdld" { format!("ok {} rem={}", m_sexp(&m), rem) } else { format!("ok {}", m_sexp(&m)) }
                 }
                 Err(e) => class(&e),
